@@ -240,6 +240,8 @@ def run(ctx, rep):
                 zs = [u for u in s.users.get(al_[0].id, ()) if u.op == 'store' and s.const_of(u.ops[0]) == 0 and u.block in s.loops[lp_] and s.dominates(u, incs_[0])]
                 okf = bool(zs)
                 detf = 'flag `%s` cleared inside the file loop: %s' % (fl, okf)
+    pool_order_rule(P, rep, 'R-C20-5o')
+    unsynced_count_rule(P, rep, 'R-C20-4n')
     from .C11 import invalid_walk_rule, hash_provenance_share
     invalid_walk_rule(P, rep, 'R-C20-4w', 'state_status', 'status reports the array as fully synced (no unsynced / unscrubbed stripe behind the used size is counted)')
     from .carried import carried_flags_rule
@@ -284,3 +286,46 @@ def run(ctx, rep):
         okc = bool(rec) and all(not p_ for a, p_ in rec) and not any(a == 'full' for a, p_ in loc_)
         detc = 'guards: %s' % [(a.split('(')[0], p_) for a, p_ in gs if a.startswith('clean_dir(') or a.isidentifier()]
     rep.check(okc, 'R-C20-5c', 'clean_dir: sub-directory removed iff its own clean-up returned empty', rm_[0].loc() if rm_ else cd.file, detc if okc else detc + ': an emptied directory is kept (or a non-empty one attempted) depending on the order of the parent\'s entries', function='clean_dir', construct='rmdir decision')
+
+
+def pool_order_rule(P, rep, rid):
+    """pool removes the stale links first and the directories they leave empty afterwards: a directory that holds only stale links
+    is still "full" when the directory sweep runs before the link sweep, and it stays behind with its parents"""
+    f = P.fn('state_pool')
+    rep.analysed(f)
+    rep.rule(rid, 'state_pool: the sweep that removes stale links (remove_link over the pool set) comes before clean_dir', 1)
+    cd = list(f.calls('clean_dir'))
+    sweeps = [c for c in f.calls('tommy_hashdyn_foreach_arg') if any(f.strip(o)[0] == 'f' and base(f.strip(o)[1]) == 'remove_link' for o in c.ops) or 'remove_link' in ' '.join(f.expr(o) for o in c.ops)]
+    if not cd or not sweeps:
+        raise AnalysisBroken('state_pool: clean_dir / remove_link sweep not found')
+    ok = all(any(f.dominates(s, c) for s in sweeps) for c in cd)
+    rep.check(ok, rid, 'state_pool: stale links are removed before the empty directories', cd[0].loc(),
+              'the link sweep dominates clean_dir' if ok else 'clean_dir runs before the stale links are removed: a pool directory that contains only stale links is not empty yet, is kept, and stays in the pool (with its parents) after the links are gone',
+              function='state_pool', construct='clean before link sweep')
+
+
+def unsynced_count_rule(P, rep, rid):
+    """status counts a stripe as unsynced when it has a block with a file and a block with invalid parity -- whatever its info word
+    says: stripes of newly added files that never had parity computed have no info at all and are exactly the ones to report"""
+    f = P.fn('state_status')
+    rep.analysed(f)
+    rep.rule(rid, 'state_status: the unsynced counter does not depend on the info word of the stripe (no guard derived from info_get)', 1)
+    incs = [i for i in f.all_insts() if i.op == 'store' and f.expr(i.ops[1]) == '&unsynced_blocks' and f.inst_of(i.ops[0]) is not None and f.inst_of(i.ops[0]).op == 'add']
+    if not incs:
+        raise AnalysisBroken('state_status: unsynced counter not found')
+    for inc in incs:
+        lp = f.loop_of(inc.block)
+        bad = []
+        for b in range(len(f.blocks)):
+            t = f.term(b)
+            if t.op != 'br' or len(t.ops) != 3 or (lp is not None and b not in f.loops[lp] and b != lp):
+                continue
+            if not any(f.edge_dominates(t, s_, inc) for s_ in t.succ if s_ != inc.block or True):
+                continue
+            if sum(1 for s_ in t.succ if f.edge_dominates(t, s_, inc)) != 1:
+                continue
+            if ('call', 'info_get') in f.value_sources(t.ops[0]):
+                bad.append(t)
+        rep.check(not bad, rid, 'state_status: ++unsynced_blocks is independent of the stripe info', inc.loc(),
+                  'guards do not read the info word' if not bad else 'the count is taken only under a test of the info word (line %s): stripes that never had parity computed (info 0: files added and not yet synced) are not counted, status can say "No sync is in progress" on an unsynced array' % bad[0].line,
+                  function='state_status', construct='unsynced count under info test')
